@@ -268,6 +268,16 @@ def handle : List String → String
     match setup cache prune blocks ops, k.toNat? with
     | some ((cfg, cfg2, _), base, os), some k => if k == 0 then "malformed" else handleImg cfg cfg2 base os k
     | _, _ => "malformed"
+  | ["lazy", cache, prune, blocks, ops, k] =>
+    -- lazily flushed metadata cache, every 3rd commit written through: a power loss after commit k
+    -- leaves the image of the durable prefix k - k mod 3 (C05's prefix durability)
+    match setup cache prune blocks ops, k.toNat? with
+    | some ((cfg, cfg2, _), base, os), some k =>
+      if k < 3 then "malformed"
+      else
+        let r := handleImg cfg cfg2 base os k
+        if (r.splitOn " out-of-range").length > 1 then r else handleImg cfg cfg2 base os (k - k % 3)
+    | _, _ => "malformed"
   | ["img2", cache, prune, blocks, ops, k, j] =>
     match setup cache prune blocks ops, k.toNat?, j.toNat? with
     | some ((cfg, cfg2, cfg3), base, os), some k, some j =>
@@ -276,6 +286,7 @@ def handle : List String → String
   | "img" :: _ => "malformed"
   | "torn" :: _ => "malformed"
   | "sync" :: _ => "malformed"
+  | "lazy" :: _ => "malformed"
   | "img2" :: _ => "malformed"
   | "par" :: _ => "malformed"
   | _ => "bad-op"
